@@ -654,12 +654,7 @@ def check_C19(chk):
     stage_conv(chk, bins, "supports", 4, 7 if chk.thorough else 6, family="{63, 64, 65, 511, 512, 513, 4095, 4096, 4097}")
     stage_format_nosupport(chk, bins)
     # wavelet matrices and cores whose level bitvectors carry every subset of supports (and per-level mixtures): load, ==, answers
-    wpath, wres = vlib.generate_cases(chk.work, "GenWM_subsets", "GenWM", cfg_consts({"Alpha": "{0, 1, 2, 3}", "MaxLen": 4 if chk.thorough else 3, "ExtraVals": "{}"}) + GEN_TAIL, timeout=900)
-    chk.add_tlc(wres, "GenWM vectors for the support-subset files", {"behaviours": len(wres.replay_lines)})
-    st = "wavelet matrix / core files whose levels carry each of the 8 subsets of supports and two per-level mixtures: load consumes the file, == the original, same answers"
-    out = chk.run_harness(bins["dbg-native"], ["replay", "--kind", "wm", "--cases", wpath, "--subsets", "1"], st)
-    if out:
-        chk.add_replay(out, st)
+    stage_wm_subsets(chk, bins)
     # supports enabled, reloaded and cloned at every state of the lifecycle machine
     stage_life(chk, bins, "C19", ["enable:", "reload:plain", "reload:sparse", "reload:rl", "file:plain", "file:sparse", "file:rl", "clone:plain", "clone:sparse", "clone:rl"],
                ops='{"mut", "to", "enable", "reload", "file", "clone"}', maxlen=3 if chk.thorough else 2, scales=(1, 64, 65), big_scales=(130, 1100), big_stride=5 if chk.thorough else 13)
@@ -842,9 +837,20 @@ def check_C14(chk):
 
 
 
+def stage_wm_subsets(chk, bins):
+    """Wavelet matrix / core files whose level bitvectors carry every subset of supports, and per-level mixtures (C07 direction 2, C19)."""
+    wpath, wres = vlib.generate_cases(chk.work, "GenWM_subsets", "GenWM", cfg_consts({"Alpha": "{0, 1, 2, 3}", "MaxLen": 4 if chk.thorough else 3, "ExtraVals": "{}"}) + GEN_TAIL, timeout=900)
+    chk.add_tlc(wres, "GenWM vectors for the support-subset files", {"behaviours": len(wres.replay_lines)})
+    st = "wavelet matrix / core files whose levels carry each of the 8 subsets of supports and per-level mixtures: load consumes the file, == the original, same answers"
+    out = chk.run_harness(bins["dbg-native"], ["replay", "--kind", "wm", "--cases", wpath, "--subsets", "1"], st)
+    if out:
+        chk.add_replay(out, st)
+
+
 def check_C07(chk):
     bins = vlib.build_harness(["dbg-native"])
     stage_format_dir2(chk, bins, maxbits=7 if chk.thorough else 6, maxn=8 if chk.thorough else 7)
+    stage_wm_subsets(chk, bins)
     chk.cov["exhaustive"] = True
     stage_trace(chk, bins, "format", "TraceFormat", seeds=2 if chk.thorough else 1)
     return chk.finish(rule="direction 2: every small-scope content of every documented type x every writer-side choice (supports absent, low width 1..9, "
